@@ -63,6 +63,27 @@ def frames():
         "F256": frame_item("F256", unknown_payload(256, 4003)),
         "F1023": frame_item("F1023", unknown_payload(1023, 4004)),
     }
+    # a frame whose payload is itself a complete valid frame (tunnelled / nested traffic):
+    # outer message number 0xD30 = 3376
+    out["Fnested"] = frame_item("Fnested", pinned.frame(p1005))
+    # two valid frames of equal length with the SAME CRC trailer but different payloads and
+    # message numbers (CRC-24Q is linear: XOR a multiple of the generator into the payload)
+    pc = unknown_payload(8, 4030)
+    fc1 = pinned.frame(pc)
+    shift = 24 + 64 - 25  # the 25-bit generator lands on the top bits of the payload
+    fc2 = (int.from_bytes(fc1, "big") ^ (pinned.CRC24Q_POLY << shift)).to_bytes(len(fc1), "big")
+    if not (pinned.frame_ok(fc2) and fc2[-3:] == fc1[-3:] and fc2[:3] == fc1[:3] and fc2 != fc1):
+        from .core import Broken  # pylint: disable=import-outside-toplevel
+
+        raise Broken("CRC collision pair construction failed")
+    out["Fcol1"] = frame_item("Fcol1", pc)
+    out["Fcol2"] = {"name": "Fcol2", "data": fc2, "kind": "frame", "payload": fc2[3:-3]}
+    # two MSM frames with identical satellite/signal masks and different cell masks
+    sat2, sig2 = (1 << 63) | (1 << 60), (1 << 30) | (1 << 22)
+    ma, _, _ = R.build("1074", {"DF394": sat2, "DF395": sig2, "DF396": 0b1010}, "fp")
+    mb, _, _ = R.build("1074", {"DF394": sat2, "DF395": sig2, "DF396": 0b1111}, "fp")
+    out["FmsmA"] = frame_item("FmsmA", ma)
+    out["FmsmB"] = frame_item("FmsmB", mb)
     _CACHE["frames"] = out
     return out
 
@@ -79,6 +100,7 @@ def wellformed(tier="quick"):
         {"name": "ubx8", "data": ubx(b"\xd3\x00\xb5\x62\x24\x47\x0a\xd3"), "kind": "skip"},
         {"name": "nFF0A62", "data": b"\xff\x0a\x62", "kind": "skip"},
         {"name": "nmeaP", "data": nmea("P", b"UBX,00,1*00"), "kind": "skip"},
+        f["Fnested"], f["Fcol1"], f["Fcol2"], f["FmsmA"], f["FmsmB"],
     ]
     if tier == "thorough":
         out += [f["F2b"], f["F255"], f["F256"],
